@@ -244,7 +244,11 @@ def gen_andor(tier, rng):
         if i % 9 == 0:
             # arbitrary range texts (hyphens, several alternatives) on both sides of `||`
             ra = RG.random_range(rng, [0, 1, 2] + HV.nums(2)); rb = RG.random_range(rng, [0, 1, 2] + HV.nums(2))
-            texts['A'] = RG.render(ra); texts['B'] = RG.render(rb); texts['A|B'] = texts['A'] + ' || ' + texts['B']; texts['B|A'] = texts['B'] + ' || ' + texts['A']
+            texts['A'] = RG.render(ra); texts['B'] = RG.render(rb)
+            if i % 27 == 0: texts['A'] = rng.choice(['', ' ', '\t '])          # an alternative in which nothing is written (`*`)
+            # any blanks around `||` and in front of the whole text
+            j1 = rng.choice([' || ', '||', ' ||', '|| ', '  ||\t']); j2 = rng.choice([' || ', '||', ' ||', '|| ', '  ||\t'])
+            texts['A|B'] = rng.choice(['', ' ', '\t']) + texts['A'] + j1 + texts['B']; texts['B|A'] = rng.choice(['', ' ', ' \t']) + texts['B'] + j2 + texts['A']
             pv = [enc_version(v) for v in probes_for([[('set', ca)], [('set', cb)], ra, rb])]
         for t in texts.values():
             cases.append(dump(['sat', E_parse(t), pv])); cases.append(dump(['within', E_parse(t), pv]))
